@@ -116,7 +116,13 @@ macro_rules! get_regex {
   ( $self:ident, $this:expr, $hooks:ident ) => {{
     let instance = $this.to_obj().to_instance();
 
-    match Regex::new(&*instance[0].to_obj().to_str()) {
+    // the pattern field can be assigned any value after init
+    let pattern = instance[0];
+    if !pattern.is_obj_kind(ObjectKind::String) {
+      return $self.call_error($hooks, "Expected pattern to be a string.");
+    }
+
+    match Regex::new(&*pattern.to_obj().to_str()) {
       Ok(regexp) => regexp,
       Err(err) => return $self.call_error($hooks, err.to_string()),
     }
